@@ -16,6 +16,8 @@ import BumpVerif.Gen.FnVec
 import BumpVerif.Gen.FnVecDrain
 import BumpVerif.Gen.FnVecIntoIter
 import BumpVerif.Gen.FnVecFilter
+import BumpVerif.Gen.FnLossy
+import BumpVerif.Gen.FnBox
 import BumpVerif.Model.Vec
 /-!
 Model-level witness search, run by `./check` when one of the equivalence theorems of `Props/GenFn*.lean` no longer
@@ -266,5 +268,25 @@ def main : IO Unit := do
   out := add (firstDiff "Vec::reserve" (vci.map fun (c, v, i) =>
     (vtag c v ++ s!" additional={i}", showM (RsM.toModel (Gen.Fn.vec_reserve c i (v, w0))),
       showM (match V.rawReserve c v v.len i with | some v' => (v', w0, some ()) | none => (v, w0, none))))) out
+  -- the lossy UTF-8 chunker on all strings of up to 3 boundary bytes (and a few longer ones)
+  let bs : List UInt8 := [0x00, 0x41, 0x7F, 0x80, 0x8F, 0x90, 0x9F, 0xA0, 0xBF, 0xC0, 0xC2, 0xDF, 0xE0, 0xE1, 0xEC, 0xED, 0xEE, 0xEF, 0xF0, 0xF1, 0xF3, 0xF4, 0xF5, 0xFF]
+  let strs : List (List UInt8) := (bs.map fun a => [a]) ++ (bs.flatMap fun a => bs.map fun b => [a, b]) ++
+    (bs.flatMap fun a => bs.flatMap fun b => bs.map fun c => [a, b, c]) ++
+    [[0xF0, 0x90, 0x80, 0x80], [0xF4, 0x8F, 0xBF, 0xBF], [0xF4, 0x90, 0x80, 0x80], [0x41, 0xE2, 0x82, 0xAC, 0x42], [0xF0, 0x9F, 0x92], [0xED, 0xA0, 0x80, 0x41]]
+  out := add (firstDiff "Utf8LossyChunksIter::next" (strs.map fun b =>
+    (s!"bytes={repr (b.map UInt8.toNat)}", toString (repr (Gen.Fn.lossy_next b)), toString (repr (some (Str.lossyNext b)))))) out
+  -- boxed.rs step sequences
+  let cells : List (List Bx.Cell) := [[], [⟨1, 10⟩], [⟨1, 10⟩, ⟨2, 20⟩, ⟨3, 30⟩]]
+  let fx0 : Bx.Fx := {}
+  out := add (firstDiff "Box::into_inner" (cells.map fun b => (s!"cells={repr b}", toString (repr (Gen.Fn.box_into_inner none b fx0)),
+    toString (repr ((Bx.intoInner b fx0).2, (Outcome.ok (Bx.intoInner b fx0).1 : Outcome (List Bx.Cell))))))) out
+  out := add (firstDiff "Box::drop" ((cells.flatMap fun b => [none, some 0, some 1].map fun pa => (b, pa)).map fun (b, pa) => (s!"cells={repr b} panicAt={repr pa}",
+    toString (repr (Gen.Fn.box_drop pa b fx0)),
+    toString (repr ((Bx.boxDrop b pa fx0).2, (if (Bx.boxDrop b pa fx0).1 then Outcome.panic else Outcome.ok () : Outcome Unit)))))) out
+  out := add (firstDiff "Vec::into_boxed_slice" (cells.map fun b => (s!"cells={repr b}", toString (repr (Gen.Fn.vec_into_boxed_slice none b fx0)),
+    toString (repr ((Bx.intoBoxedSlice b fx0).2, (Outcome.ok (Bx.intoBoxedSlice b fx0).1 : Outcome (List Bx.Cell))))))) out
+  out := add (firstDiff "TryFrom<Box<[T]>> for Box<[T; N]>" ((cells.flatMap fun b => [0, 1, 3].map fun n => (b, n)).map fun (b, n) => (s!"cells={repr b} N={n}",
+    toString (repr (Gen.Fn.box_slice_to_arr none n b fx0)),
+    toString (repr ((Bx.sliceToArr n b fx0).2.2, (Outcome.ok (if (Bx.sliceToArr n b fx0).1 then Except.ok (Bx.sliceToArr n b fx0).2.1 else Except.error (Bx.sliceToArr n b fx0).2.1) : Outcome (Except (List Bx.Cell) (List Bx.Cell)))))))) out
   for l in out do IO.println l
   IO.println s!"GENDIFF-DONE mismatches={out.length}"
